@@ -299,6 +299,10 @@ def c05(v):
             ok = (c in v.cancel and v.cancel[c][1] == tc) or (c in v.stop and v.stop[c][1] == tc)
             if not ok:
                 V.append("C05 %s was still running/queued when critical job %s raised at t=%d and was not cancelled at that instant" % (c, who, tc))
+            # … and the cancellation takes effect: the job does not go on to a normal completion of its own
+            if c in v.stop and v.stop[c][1] > tc and v.stop[c][2] not in ("cdone", "rcancel"):
+                V.append("C05 %s, running when critical job %s raised at t=%d, was not cancelled: it went on to end by itself (%s at t=%d)"
+                         % (c, who, tc, v.stop[c][2], v.stop[c][1]))
         if f is not None or s in v.stop:
             tend = v.stop[s][1]
             if tend > end_bound(v, s, tc, live):
